@@ -42,6 +42,11 @@ def gen(rng, tier, open_keys):
             progs.append(["thread"] + gen_program(rng, "worker" if i == 0 or rng.random() < 0.35 else "waiter"))
         choices = [rng.randrange(0, 12) for _ in range(rng.choice([5, 15, 30, 60]))]
         out.append(C.sx(["wg"] + progs + [["choices"] + choices]))
+    for _ in range(40 if tier == "quick" else 400):
+        out.append(C.sx(["wgacct", ["via", rng.choice(["launch", "dotimes", "opadd", "startgroup"])],
+                         ["kinds"] + [rng.choice(["ret", "ret", "goexit"]) for _ in range(rng.choice([1, 2, 3, 5, 8]))]]))
+    for _ in range(3 if tier == "quick" else 12):
+        out.append(C.sx(["wgstress", ["rounds", 150000 if tier == "quick" else 600000], ["waiters", rng.choice([1, 2, 3])]]))
     return out
 
 
@@ -54,6 +59,14 @@ def corpus():
 def predicate(line, obs, allow_known=False):
     if obs.startswith("PANIC") or obs.startswith("bad"):
         return "harness error: " + obs[:120]
+    if line.startswith("(wgacct"):
+        n = len(C.parse_sx(line)[2]) - 1
+        want = f"acct n={n} running={n} after=0 waitstuck=0"
+        return None if obs == want else ("the goroutines started through Launch/DoTimes/Operation.Add/StartGroup are not accounted for "
+                                         "exactly (counter while they run / after they ended / Wait): " + obs + " instead of " + want)
+    if line.startswith("(wgstress"):
+        return None if obs == "stress stuck=0" else ("a Wait with a live context stayed blocked although the counter reached zero "
+                                                     "(a Done racing Wait's entry was lost): " + obs)
     if line.startswith("(wgprobe"):
         if obs != "probe unlocked=0 returned=1":
             return ("cancellation landing between Wait's select and cond.Wait is lost: the helper's Broadcast ran while "
@@ -103,10 +116,20 @@ def predicate(line, obs, allow_known=False):
 
 
 def nontrivial(line, obs):
+    if line.startswith("(wgacct") or line.startswith("(wgstress"):
+        return obs is not None
+    return _nontrivial(line, obs)
+
+
+def _nontrivial(line, obs):
     return obs is not None and "park:" in obs and ("wake=[" in obs and any(c.isdigit() for c in obs.split("wake=[", 1)[1][:3]) or "=c" in obs or "c" in obs)
 
 
 def features(line, obs):
+    if line.startswith("(wgacct"):
+        return ["acct:" + line.split("(via ")[1].split(")")[0]] + (["acct:goexit"] if "goexit" in line else [])
+    if line.startswith("(wgstress"):
+        return ["stress"]
     if "probe" in line:
         return ["probe"]
     f = [f"threads:{line.count('(thread')}"]
@@ -123,8 +146,12 @@ def features(line, obs):
 
 
 def shrink(line, fails):
-    return line if "probe" in line else SL.shrink_choices(line, fails)
+    return line if not line.startswith("(wg ") else SL.shrink_choices(line, fails)
 
 
 def classify(line, obs, why):
     return "probe" if "probe" in line else None
+
+
+def conclusive(line):
+    return line.startswith("(wgstress")
